@@ -31,8 +31,10 @@ def rust_field_ty(f):
     return s
 
 
-def rust_entry(e):
-    return str(e[1]) if e[0] == 's' else '%d..=%d' % (e[1], e[2])
+def rust_entry(e, pad=False):
+    # `010` is the decimal number ten in Rust: a zero-padded bit number is an ordinary one
+    z = '0' if pad else ''
+    return z + str(e[1]) if e[0] == 's' else '%s%d..=%s%d' % (z, e[1], z, e[2])
 
 
 def rust_attr(f):
@@ -40,9 +42,9 @@ def rust_attr(f):
         return f['attr_text']
     kw = 'bits' if f['bits_kw'] else 'bit'
     if f['list']:
-        rng = '[' + ', '.join(rust_entry(e) for e in f['entries']) + ']'
+        rng = '[' + ', '.join(rust_entry(e, f.get('zero_pad')) for e in f['entries']) + ']'
     else:
-        rng = ', '.join(rust_entry(e) for e in f['entries'])
+        rng = ', '.join(rust_entry(e, f.get('zero_pad')) for e in f['entries'])
     args = [rng]
     if f['acc']:
         args.append(f['acc'])
@@ -147,6 +149,8 @@ def rust_enum(d):
             lines.append('    /// documented variant')
         for a in v.get('attrs', []):
             lines.append('    ' + a)          # attributes that do not gate the variant: cfg_attr, allow, doc
+        if v.get('cfg') and v.get('doc_first'):
+            lines.append('    /// a gated variant, documented before its cfg attribute')
         if v.get('cfg') == 'all':
             lines.append('    #[cfg(all())]')
         elif v.get('cfg') == 'any':
